@@ -9,7 +9,7 @@
    different GraphSpecs (multigraph, nodes must exist, edges in another order — the rows
    of successors_vec come out in another order): the same betweenness. *)
 From Coq Require Import String List Bool ZArith QArith Arith Lia Permutation.
-From GV Require Import Base.Outcome Base.AMap Model.GState Model.Creation Model.Query Model.Cent Model.Brandes.
+From GV Require Import Base.Outcome Base.AMap Model.GState Model.Creation Model.Query Model.Cent Model.Brandes Model.Closeness Model.Dijkstra.
 From GV Require Import Spec.History Spec.BetweennessDef Spec.EdgeStoreGraph Spec.EdgeStoreAdj.
 From GV Require Import Proofs.WFDefs Proofs.HistoryOk Proofs.DijkstraWFExamples Proofs.BrandesWF.
 Import ListNotations.
@@ -65,12 +65,25 @@ Example edge_store_only_nonvacuous :
   names bw_g = names bw_g' /\ weights_real_positive bw_g /\
   Permutation (get_all_edges bw_g) (get_all_edges bw_g') /\
   get_all_edges bw_g <> get_all_edges bw_g' /\ successors_vec bw_g <> successors_vec bw_g' /\
+  small_adj bw_g /\ small_adj bw_g' /\ weights_nonneg bw_g /\ weights_real bw_g /\
   betweenness_centrality false bw_g true false = Ok [(1%Z, 0); (2%Z, 1); (3%Z, 0)] /\
-  betweenness_centrality true bw_g' true false = Ok [(1%Z, 0); (2%Z, 1); (3%Z, 0)].
+  betweenness_centrality true bw_g' true false = Ok [(1%Z, 0); (2%Z, 1); (3%Z, 0)] /\
+  closeness_centrality Z.eqb Z.ltb false bw_g true false = Ok [(1%Z, 0); (2%Z, 1); (3%Z, 2 # 3)] /\
+  closeness_centrality Z.eqb Z.ltb true bw_g' true false = Ok [(1%Z, 0); (2%Z, 1); (3%Z, 2 # 3)] /\
+  (exists m, Dijkstra.single_source Z.eqb bw_g true 1%Z None None false true = Ok m /\
+             option_map sp_distance (lookup Z.eqb 3%Z m) = Some 2%Z) /\
+  (exists m, Dijkstra.single_source Z.eqb bw_g' true 1%Z None None false true = Ok m /\
+             option_map sp_distance (lookup Z.eqb 3%Z m) = Some 2%Z).
 Proof.
   split; [exact bw_g_reachable|]. split; [exact bw_g'_reachable|].
   split; [discriminate|]. split; [reflexivity|]. split; [vm_compute; reflexivity|]. split; [exact bw_g_positive|].
-  split; [|split; [vm_compute; discriminate|split; [vm_compute; discriminate|split; vm_compute; reflexivity]]].
+  split; [|split; [vm_compute; discriminate|split; [vm_compute; discriminate|]]].
+  2:{ split; [vm_compute; reflexivity|]. split; [vm_compute; reflexivity|].
+      split; [intros e z He Hz; destruct (bw_g_positive e He) as [z' [Hz' Hp]]; assert (z = z') by congruence; subst; lia|].
+      split; [intros e He; destruct (bw_g_positive e He) as [z' [Hz' _]]; eauto|].
+      split; [vm_compute; reflexivity|]. split; [vm_compute; reflexivity|].
+      split; [vm_compute; reflexivity|]. split; [vm_compute; reflexivity|].
+      split; eexists; (split; [vm_compute; reflexivity|]); vm_compute; reflexivity. }
   vm_compute.
   eapply perm_trans; [apply perm_skip; apply perm_swap|].
   eapply perm_trans; [apply perm_swap|]. apply perm_skip. apply perm_swap.
